@@ -675,6 +675,8 @@ func runC15(c *Ctx) {
 	ruleOnce(c, a, "ONCE")
 	ruleStatus(c, a)
 	ruleReplayKind(c, "STATUS")
+	ruleRelayErrorKept(c, "STATUS")
+	ruleAdapterStatus(c, "WIRING")
 	ruleWiring(c, a)
 	rulePassthru(c, "PASSTHRU")
 	ruleLoopVar(c, "ONCE", "service")
